@@ -84,6 +84,36 @@ func c09(c *Ctx) {
 				}})
 				_ = r2
 				c.RequireAt(r, "R2", "leaderLoop:verify-negative", s.Instr, "ErrNotLeader only on the votes < quorumSize arm", func(v engine.View) bool { return v.F("fresh") && v.T("short") })
+				// that arm also gives up leadership and forgets the future
+				if arms := recvArms(c, fn, "recv.verifyCh"); len(arms) == 1 {
+					if ab := engine.SelectArmEntry(arms[0].sel, arms[0].k); ab != nil {
+						sel := arms[0].sel
+						ra := c.Run(&engine.Automaton{Fn: fn, StartBlock: ab, StopAt: func(in ssa.Instruction) bool { return in == ssa.Instruction(sel) }, Tracks: []engine.Track{
+							engine.PredRel("short", v+".votes", v+".quorumSize", engine.LT),
+							engine.PredRel("fresh", v+".quorumSize", "0", engine.EQ),
+							engine.Event("stepdown", callWithArg0(c, "(*Raft).setState", "Follower")),
+							engine.Event("forgot", func(in ssa.Instruction) bool {
+								cc := engine.CallCommonOf(in)
+								return cc != nil && c.P.CalleeName(cc) == "builtin:delete" && c.P.Arg(in, 0) == "recv.leaderState.notify" && c.P.Arg(in, 1) == v
+							}),
+							engine.Event("answered", func(in ssa.Instruction) bool {
+								cc := engine.CallCommonOf(in)
+								return cc != nil && c.P.CalleeName(cc) == "(*deferError).respond" && strings.HasPrefix(c.P.D(engine.RecvValue(in)), v)
+							}),
+							engine.Event("started", callWithArg0(c, "(*Raft).verifyLeader", v)),
+						}})
+						c.RequireAt(ra, "R2", "leaderLoop:verify-arm-outcomes", sel, "per verify future: fresh → verifyLeader; votes < quorum → step down, forget, answer; otherwise forget and answer", func(vw engine.View) bool {
+							switch {
+							case vw.T("fresh"):
+								return vw.Seen("started") && !vw.Seen("answered")
+							case vw.T("short"):
+								return vw.Seen("stepdown") && vw.Seen("forgot") && vw.Seen("answered")
+							default:
+								return vw.F("short") && vw.Seen("forgot") && vw.Seen("answered") && !vw.Seen("stepdown")
+							}
+						})
+					}
+				}
 			}
 		}
 	}
